@@ -1,0 +1,172 @@
+//go:build verif
+
+package fileops
+
+import (
+	"os"
+	"sync/atomic"
+)
+
+// VerifObserver is told about every mutation issued through the local VFS: once before it is
+// issued and once after it completed (before the call returns to the caller). op is one of
+// create, openfile, write, truncate, sync, rename, remove, removeall, mkdir, writefile.
+// It exists only in builds with the `verif` tag and lets a test harness take crash images of
+// a directory tree at every mutation boundary.
+type VerifObserver interface {
+	Before(op, path, path2 string, n int64)
+	After(op, path, path2 string, n int64, err error)
+}
+
+var verifObserver atomic.Value // holds *verifObserverBox
+var verifInner VFS
+
+type verifObserverBox struct{ o VerifObserver }
+
+// SetVerifObserver installs (or, with nil, removes) the observer. The local VFS is wrapped on
+// first use and stays wrapped; without an observer the wrapper only forwards.
+func SetVerifObserver(o VerifObserver) {
+	if verifInner == nil {
+		verifInner = localFS
+		localFS = &verifFS{VFS: verifInner}
+	}
+	verifObserver.Store(&verifObserverBox{o: o})
+}
+
+func verifObs() VerifObserver {
+	if b, ok := verifObserver.Load().(*verifObserverBox); ok {
+		return b.o
+	}
+	return nil
+}
+
+type verifFS struct{ VFS }
+
+func (v *verifFS) wrap(f File, err error) (File, error) {
+	if err != nil || f == nil {
+		return f, err
+	}
+	return &verifFile{File: f}, nil
+}
+
+func (v *verifFS) Open(name string, opt ...FSOption) (File, error) {
+	return v.wrap(v.VFS.Open(name, opt...))
+}
+
+func (v *verifFS) OpenFile(name string, flag int, perm os.FileMode, opt ...FSOption) (File, error) {
+	mut := flag&(os.O_CREATE|os.O_TRUNC) != 0
+	o := verifObs()
+	if mut && o != nil {
+		o.Before("openfile", name, "", int64(flag))
+	}
+	f, err := v.VFS.OpenFile(name, flag, perm, opt...)
+	if mut && o != nil {
+		o.After("openfile", name, "", int64(flag), err)
+	}
+	return v.wrap(f, err)
+}
+
+func (v *verifFS) create(which string, name string, fn func() (File, error)) (File, error) {
+	o := verifObs()
+	if o != nil {
+		o.Before(which, name, "", 0)
+	}
+	f, err := fn()
+	if o != nil {
+		o.After(which, name, "", 0, err)
+	}
+	return v.wrap(f, err)
+}
+
+func (v *verifFS) Create(name string, opt ...FSOption) (File, error) {
+	return v.create("create", name, func() (File, error) { return v.VFS.Create(name, opt...) })
+}
+
+func (v *verifFS) CreateV1(name string, opt ...FSOption) (File, error) {
+	return v.create("create", name, func() (File, error) { return v.VFS.CreateV1(name, opt...) })
+}
+
+func (v *verifFS) CreateV2(name string, opt ...FSOption) (File, error) {
+	return v.create("create", name, func() (File, error) { return v.VFS.CreateV2(name, opt...) })
+}
+
+func (v *verifFS) simple(op, p1, p2 string, n int64, fn func() error) error {
+	o := verifObs()
+	if o != nil {
+		o.Before(op, p1, p2, n)
+	}
+	err := fn()
+	if o != nil {
+		o.After(op, p1, p2, n, err)
+	}
+	return err
+}
+
+func (v *verifFS) Remove(name string, opt ...FSOption) error {
+	return v.simple("remove", name, "", 0, func() error { return v.VFS.Remove(name, opt...) })
+}
+
+func (v *verifFS) RemoveLocal(name string, opt ...FSOption) error {
+	return v.simple("remove", name, "", 0, func() error { return v.VFS.RemoveLocal(name, opt...) })
+}
+
+func (v *verifFS) RemoveAll(path string, opt ...FSOption) error {
+	return v.simple("removeall", path, "", 0, func() error { return v.VFS.RemoveAll(path, opt...) })
+}
+
+func (v *verifFS) RemoveAllWithOutDir(path string, opt ...FSOption) error {
+	return v.simple("removeall", path, "", 0, func() error { return v.VFS.RemoveAllWithOutDir(path, opt...) })
+}
+
+func (v *verifFS) Mkdir(path string, perm os.FileMode, opt ...FSOption) error {
+	return v.simple("mkdir", path, "", 0, func() error { return v.VFS.Mkdir(path, perm, opt...) })
+}
+
+func (v *verifFS) MkdirAll(path string, perm os.FileMode, opt ...FSOption) error {
+	return v.simple("mkdir", path, "", 0, func() error { return v.VFS.MkdirAll(path, perm, opt...) })
+}
+
+func (v *verifFS) RenameFile(oldPath, newPath string, opt ...FSOption) error {
+	return v.simple("rename", oldPath, newPath, 0, func() error { return v.VFS.RenameFile(oldPath, newPath, opt...) })
+}
+
+func (v *verifFS) WriteFile(filename string, data []byte, perm os.FileMode, opt ...FSOption) error {
+	return v.simple("writefile", filename, "", int64(len(data)), func() error { return v.VFS.WriteFile(filename, data, perm, opt...) })
+}
+
+func (v *verifFS) Truncate(name string, size int64, opt ...FSOption) error {
+	return v.simple("truncate", name, "", size, func() error { return v.VFS.Truncate(name, size, opt...) })
+}
+
+type verifFile struct{ File }
+
+func (f *verifFile) Write(b []byte) (int, error) {
+	o := verifObs()
+	if o != nil {
+		o.Before("write", f.File.Name(), "", int64(len(b)))
+	}
+	n, err := f.File.Write(b)
+	if o != nil {
+		o.After("write", f.File.Name(), "", int64(n), err)
+	}
+	return n, err
+}
+
+func (f *verifFile) Truncate(size int64) error {
+	o := verifObs()
+	if o != nil {
+		o.Before("truncate", f.File.Name(), "", size)
+	}
+	err := f.File.Truncate(size)
+	if o != nil {
+		o.After("truncate", f.File.Name(), "", size, err)
+	}
+	return err
+}
+
+func (f *verifFile) Sync() error {
+	err := f.File.Sync()
+	if o := verifObs(); o != nil {
+		o.After("sync", f.File.Name(), "", 0, err)
+	}
+	return err
+}
